@@ -9,7 +9,7 @@ Definition cfgW : config :=
   Build_config SExact false [] 600000%Z 3600000%Z 86400000%Z false false true true 600000%Z 300000%Z false.
 Definition clsW : list client := [Build_client false ["authorization_code"; "refresh_token"; "urn:ietf:params:oauth:grant-type:device_code"] ["photos"] [] None].
 Definition authzW (challenge method : string) : op :=
-  OAuthorize (Build_authz RCode 0 "" ["photos"] ["photos"] [] [] "peter" challenge method).
+  OAuthorize (Build_authz RCode 0 "" ["photos"] ["photos"] [] [] "peter" challenge method "").
 Definition redeemW : op := ORedeem (Some 0) (Build_pres (CRef 0) false) "" "" "" [].
 Definition envW (tx : bool) (plan : list (nat * fault)) : fenv := {| fe_tx := tx; fe_plan := plan_of plan |}.
 
@@ -76,22 +76,13 @@ Lemma example_refresh_serialization :
   o_err ob = "invalid_request" /\ digest_of s' = digest_of sW2 /\ o_minted (snd (step cfgW s' refreshW)) = [KAccess; KRefresh].
 Proof. vm_compute. repeat split; auto. Qed.
 
-(* the refresh handler dereferences a nil requester when the store answers ErrInactiveToken for a token it has no record
-   of: the request ends in a panic after BeginTX and DeleteRefreshTokenSession, the transaction is never finished *)
+(* a store that answers ErrInactiveToken for a refresh token it has no record of: refused with server_error before any
+   write or BeginTX (the request used to end in a panic with the transaction left open) *)
 Definition refreshUnknownW : op := ORefresh (Some 0) (Build_pres CUnknown false) [].
-Lemma witness_panic :
+Lemma example_reuse_report_without_request :
   let '(s', ob, calls) := fstep (envW true [(0, FInactive)]) cfgW sW2 refreshUnknownW in
-  o_err ob = "PANIC" /\ calls = [(MGetRT, RInj FInactive); (MBegin, ROk); (MDeleteRT, ROk)] /\ tx_wf calls = false /\
-  digest_of s' = digest_of sW2.
+  o_err ob = "server_error" /\ calls = [(MGetRT, RInj FInactive)] /\ tx_wf calls = true /\ digest_of s' = digest_of sW2.
 Proof. vm_compute. repeat split; auto. Qed.
-
-Theorem every_request_is_answered_refuted :
-  exists e cfg s o, faultable o = true /\
-    let '(s', ob, calls) := fstep e cfg s o in o_err ob = "PANIC" /\ tx_wf calls = false.
-Proof.
-  exists (envW true [(0, FInactive)]), cfgW, sW2, refreshUnknownW. split; [reflexivity|].
-  pose proof witness_panic as H. destruct (fstep _ cfgW sW2 refreshUnknownW) as [[s' ob] calls]. destruct H as (H1 & _ & H3 & _). auto.
-Qed.
 
 Theorem refusal_after_every_fault_refuted :
   exists e cfg s o m f, faultable o = true /\ is_revoke o = false /\
